@@ -23,6 +23,7 @@ func lookupFlow[T any](urlTree *URLTree[T], url string) lookupFlowNodeResult[T] 
 	currentNode := urlTree.Root
 	flows := []T{}
 	index := 0
+	walkedParts := 0
 
 	var part urlPart
 	for index, part = range splitURL {
@@ -34,6 +35,7 @@ func lookupFlow[T any](urlTree *URLTree[T], url string) lookupFlowNodeResult[T] 
 		child, found := currentNode.ConstantChildren[part.Value]
 		if found && child.IsPartOfHost == part.IsPartOfHost {
 			currentNode = child
+			walkedParts++
 			continue
 		}
 
@@ -41,13 +43,16 @@ func lookupFlow[T any](urlTree *URLTree[T], url string) lookupFlowNodeResult[T] 
 		if parametricChild != nil &&
 			parametricChild.IsPartOfHost == part.IsPartOfHost {
 			currentNode = parametricChild
+			walkedParts++
 			continue
 		}
 
 		break
 	}
 
-	if index == lookUpLength && currentNode.hasValue() && currentNode.WildcardChild == nil {
+	// the node reached is the URL's own node only if every part of the URL was walked: when the walk stops at the
+	// last part (no child for it) the node reached belongs to a URL that is one segment shorter
+	if walkedParts == len(splitURL) && currentNode.hasValue() && currentNode.WildcardChild == nil {
 		flows = append(flows, *currentNode.Value)
 	} else if index == lookUpLength && part.IsPartOfHost &&
 		currentNode.WildcardChild != nil && currentNode.WildcardChild.hasValue() {
